@@ -60,6 +60,21 @@ func init() {
 	})
 }
 
+// WatchTx registers a transaction that is driven outside ExecSeq with the hook sink. The returned
+// function unregisters it and returns the PhaseBegin counts and the evaluated rule ids per phase.
+func WatchTx(tx any) func() (phaseBegin [6]int, evaluated [6][]int) {
+	ev := &txEvents{}
+	evMu.Lock()
+	evs[tx] = ev
+	evMu.Unlock()
+	return func() ([6]int, [6][]int) {
+		evMu.Lock()
+		defer evMu.Unlock()
+		delete(evs, tx)
+		return ev.phaseBegin, ev.evaluated
+	}
+}
+
 // Build compiles a program into a WAF.
 func Build(p *Program) (coraza.WAF, error) {
 	return BuildText(p.Render())
